@@ -101,6 +101,13 @@ def run(rep, tier, seed):
             xml = pro + f'<svg {NS} width="10" height="10" viewBox="0 0 10 10">{SVGDX_LOOKING}<?pi data?><g><text text="t">x &amp;amp; y</text></g></svg>\n'
             cases.append({"k": f"c03p-{p}-{v}", "xml": xml, "cfg": dict(textc.CONFIGS[(v * 3) % len(textc.CONFIGS)]),
                           "case": {"fam": "root", "prolog": p}, "mode": "root"})
+    # an internal DTD subset declaring an entity that the document then uses
+    ent = ('<?xml version="1.0"?>\n<!DOCTYPE svg PUBLIC "-//W3C//DTD SVG 1.1//EN" "http://www.w3.org/Graphics/SVG/1.1/DTD/svg11.dtd" [\n'
+           '<!ENTITY foo "bar &#38;amp; baz">\n]>\n'
+           f'<svg {NS}><text a="&foo;" xy="&foo;">x &foo; y</text><rect width="1" height="1" text="&foo;"/></svg>\n')
+    for v in range(3):
+        cases.append({"k": f"c03ent-{v}", "xml": ent, "cfg": dict(textc.CONFIGS[(v * 3) % len(textc.CONFIGS)]),
+                      "case": {"fam": "root", "prolog": "entity-subset"}, "mode": "root"})
     # namespaced subtree embedded in an svgdx document
     sub = f'<svg {NS} width="5" height="5"><rect xy="^|h" wh="2" text="a &amp;lt; b" data-q="x &amp; &quot;y&quot;"/><text>1 &lt; 2 &amp;amp; 3</text><!-- c --></svg>'
     for pos, xml in (("first", f"<svg>{sub}<rect wh=\"3\"/></svg>"), ("later", f"<svg><rect wh=\"3\"/>{sub}</svg>"),
